@@ -37,6 +37,13 @@ type tr struct {
 	env     map[string]ty
 	results []ty
 	structs map[string]bool
+	// abs maps the printed form of a Go sub-expression to a Lean parameter standing for it
+	abs map[string]absParam
+}
+
+type absParam struct {
+	lean string
+	ty   ty
 }
 
 func (t *tr) goType(e ast.Expr) ty {
@@ -109,6 +116,11 @@ var stringsFns = map[string]struct {
 }
 
 func (t *tr) expr(e ast.Expr) (string, ty) {
+	if t.abs != nil {
+		if a, ok := t.abs[exprStr(t.p.fset, e)]; ok {
+			return a.lean, a.ty
+		}
+	}
 	switch x := e.(type) {
 	case *ast.BasicLit:
 		switch x.Kind {
@@ -451,6 +463,64 @@ var fnSpecs = []fnSpec{
 	{lean: "amp_isASCIIWhitespace", dir: "common/amp", name: "isASCIIWhitespace"},
 }
 
+// condSpec translates one `if` condition inside a function, abstracting listed sub-expressions
+// into parameters.  `contains` selects the if statement (its printed condition must contain it).
+type condSpec struct {
+	lean, dir, name, contains string
+	params                    []absParam // in order
+	abs                       map[string]string
+}
+
+var condSpecs = []condSpec{
+	{lean: "proxy_runSession_rejectCond", dir: "proxy/lib", name: "SnowflakeProxy.runSession", contains: "IsMember",
+		params: []absParam{{"relayURL", tBytes}, {"isMember", tBool}, {"allowNonTLS", tBool}, {"scheme", tBytes}},
+		abs: map[string]string{"relayURL": "relayURL", "matcher.IsMember(parsedRelayURL.Hostname())": "isMember",
+			"sf.AllowNonTLSRelay": "allowNonTLS", "parsedRelayURL.Scheme": "scheme"}},
+}
+
+func emitConds(b *strings.Builder) {
+	for _, cs := range condSpecs {
+		func() {
+			defer func() {
+				if r := recover(); r != nil {
+					rf, ok := r.(refuse)
+					if !ok {
+						panic(r)
+					}
+					fmt.Fprintf(b, "/-- translator refused `%s.%s`: %s -/\ntheorem translator_unsupported_%s : False := by trivial\n\n", cs.dir, cs.name, rf.why, cs.lean)
+				}
+			}()
+			p := loadPkg(cs.dir)
+			fd, ok := p.funcs[cs.name]
+			if !ok {
+				bad("function not found")
+			}
+			var conds []ast.Expr
+			ast.Inspect(fd.Body, func(n ast.Node) bool {
+				if is, ok := n.(*ast.IfStmt); ok && strings.Contains(exprStr(p.fset, is.Cond), cs.contains) {
+					conds = append(conds, is.Cond)
+				}
+				return true
+			})
+			if len(conds) != 1 {
+				bad("expected exactly one if-condition containing %q, found %d", cs.contains, len(conds))
+			}
+			t := &tr{p: p, env: map[string]ty{}, structs: map[string]bool{}, abs: map[string]absParam{}}
+			byName := map[string]absParam{}
+			var params []string
+			for _, pa := range cs.params {
+				byName[pa.lean] = pa
+				params = append(params, fmt.Sprintf("(%s : %s)", v(pa.lean), leanType(pa.ty)))
+			}
+			for goExpr, name := range cs.abs {
+				t.abs[goExpr] = absParam{v(name), byName[name].ty}
+			}
+			e, _ := t.expr(conds[0])
+			fmt.Fprintf(b, "/-- condition `%s` of `%s` `%s` -/\ndef %s %s : Bool :=\n  %s\n\n", exprStr(p.fset, conds[0]), cs.dir, cs.name, cs.lean, strings.Join(params, " "), e)
+		}()
+	}
+}
+
 func findSwitch(n ast.Node) *ast.SwitchStmt {
 	var out *ast.SwitchStmt
 	ast.Inspect(n, func(x ast.Node) bool {
@@ -538,6 +608,7 @@ func emitFuncs() string {
 			fmt.Fprintf(&b, "/-- translated from `%s` `%s` -/\ndef %s %s : %s :=\n%s\n", fs.dir, fs.name, fs.lean, strings.Join(params, " "), rty, body)
 		}()
 	}
+	emitConds(&b)
 	b.WriteString("end Snowflake.Gen.Funcs\n")
 	return b.String()
 }
